@@ -18,6 +18,8 @@ class OutOfDomain(Exception):
 def sel_to_py(s):
     if s[0] == 'i':
         return int(s[1])
+    if s[0] == 'I':
+        return np.int64(s[1])
     if s[0] == 's':
         return slice(s[1], s[2], s[3])
     if s[0] == 'l':
@@ -27,7 +29,7 @@ def sel_to_py(s):
 
 def sel_indices(s, n):
     """index list an in-domain selector picks on an axis of length n"""
-    if s[0] == 'i':
+    if s[0] in ('i', 'I'):
         k = int(s[1])
         if not (-n <= k < n):
             raise OutOfDomain('integer %d outside [-%d,%d)' % (k, n, n))
